@@ -9,20 +9,25 @@ case $prop in
   C01) target=fz_scenario; runs=${VERIF_FUZZ_RUNS:-1500000}; maxlen=600;;
   *) exit 0;;
 esac
-work="$root/fuzz/work/$target"; rm -rf "$work"; mkdir -p "$work" "$root/fuzz/artifacts/$target"
+work="$root/fuzz/work/$target"; rm -rf "$work" "$root/fuzz/artifacts/$target"; mkdir -p "$work" "$root/fuzz/artifacts/$target"
 cd "$root/harness" || exit 2
 export VERIF_PROPERTY=$prop
+# the interpreter forgets connections on purpose (EndHow::Forget): leak reports are about the harness
+export ASAN_OPTIONS=detect_leaks=0
 log="$root/fuzz/work/$target.log"
 if ! cargo +nightly fuzz build --fuzz-dir "$root/fuzz" $target >"$log" 2>&1; then
     tail -5 "$log"; echo "INCONCLUSIVE: fuzz target does not build"; exit 2
 fi
 cargo +nightly fuzz run --fuzz-dir "$root/fuzz" $target "$work" "$root/corpus/$target" -- \
-    -runs=$runs -seed=$seed -len_control=0 -max_len=$maxlen -print_final_stats=1 >>"$log" 2>&1
+    -runs=$runs -seed=$seed -detect_leaks=0 -rss_limit_mb=4096 -timeout=120 -len_control=0 -max_len=$maxlen -print_final_stats=1 >>"$log" 2>&1
 frc=$?
 execs=$(grep -E "stat::number_of_executed_units" "$log" | awk '{print $2}' | tail -1)
 cov=$(grep -oE "cov: [0-9]+" "$log" | tail -1 | awk '{print $2}')
 corp=$(ls "$work" | wc -l)
-crash=$(ls "$root/fuzz/artifacts/$target" 2>/dev/null | head -1)
+# only crash-* artifacts come from the in-target oracle; leak-/oom-/timeout-/slow-unit- are resource
+# reports about the harness process (EndHow::Forget leaks a connection on purpose) and never a violation
+crash=$(ls "$root/fuzz/artifacts/$target" 2>/dev/null | grep '^crash-' | head -1)
+other=$(ls "$root/fuzz/artifacts/$target" 2>/dev/null | grep -v '^crash-' | head -1)
 python3 - "$root/evidence/$prop.json" "$target" "${execs:-0}" "${cov:-0}" "$corp" "$seed" "${crash:-}" <<'PY'
 import json,sys
 f,target,execs,cov,corp,seed,crash=sys.argv[1:8]
@@ -38,8 +43,15 @@ if [ -n "$crash" ]; then
     art="$root/fuzz/artifacts/$target/$crash"
     mkdir -p "$root/replays/$prop"; cp "$art" "$root/replays/$prop/libfuzzer-$crash"
     grep -E "^VIOLATION|^violation" "$log" | head -3
-    echo "VIOLATION property=$prop replay=$root/replays/$prop/libfuzzer-$crash"
+    rp="$root/replays/$prop/libfuzzer-$crash"
+    if grep -q "^REPLAY-JSON: " "$log"; then
+        grep "^REPLAY-JSON: " "$log" | tail -1 | sed 's/^REPLAY-JSON: //' > "$rp.json"; rp="$rp.json"
+    fi
+    echo "VIOLATION property=$prop replay=$rp"
     exit 1
+fi
+if [ -n "$other" ]; then
+    echo "INCONCLUSIVE: libFuzzer resource report $other (not a property violation)"; exit 2
 fi
 if [ "$frc" != 0 ]; then
     tail -5 "$log"; echo "INCONCLUSIVE: libFuzzer exited with status $frc without an artifact"; exit 2
